@@ -323,7 +323,39 @@ def _x_of_second(fn, e) -> bool:
     return False
 
 
+def rule_z_support_whole(ctx: Ctx) -> None:
+    """fid.z-support: for a generator of the second state without X part, inner_product rebuilds the same product of Z's from the first
+    state's generators — one factor per column on which the row has a Z.  The columns are collected over the *whole* row: a Z-type row of
+    the canonical form comes after the X pivots and can carry a Z on any column, also left of its own index, so a partial range loses
+    factors, the rebuilt row no longer equals the generator and the sign comparison that detects orthogonality never fires."""
+    repo = ctx.repo
+    m = repo.module(METRIC)
+    fn = repo.anchor(METRIC, "inner_product")
+    ctx.touch(m, fn)
+    loops = [l for l in ast.walk(fn) if isinstance(l, ast.For) and isinstance(l.iter, ast.Name) and any(call_attr(c) == "row_sum" or call_name(c) == "row_sum" for c in calls_in(l))]
+    if len(loops) != 1:
+        raise AnalysisError("inner_product: the loop that multiplies the Z columns was not found")
+    src = [a.value for a in ast.walk(fn) if isinstance(a, ast.Assign) and norm(a.targets[0]) == loops[0].iter.id]
+    if len(src) != 1 or not isinstance(src[0], ast.ListComp) or len(src[0].generators) != 1:
+        raise AnalysisError("inner_product: the list of Z columns is not a single comprehension")
+    g = src[0].generators[0]
+    it = g.iter
+    sizes = {norm(a.targets[0]) for a in ast.walk(fn) if isinstance(a, ast.Assign) and "n_qubits" in norm(a.value) and isinstance(a.targets[0], ast.Name)} | {"n_qubits"}
+    whole = isinstance(it, ast.Call) and call_name(it) == "range" and (
+        (len(it.args) == 1 and norm(it.args[0]) in sizes) or (len(it.args) == 2 and norm(it.args[0]) == "0" and norm(it.args[1]) in sizes))
+    if whole:
+        ctx.ok("fid.z-support", m, src[0], what="Z support collected over every column")
+    elif isinstance(it, ast.Call) and call_name(it) == "range":
+        ctx.fail("fid.z-support", m, src[0],
+                 f"inner_product collects the Z columns of a generator over `{short(it)}` instead of every column: a Z-type row of the canonical form can have a Z left of "
+                 f"its own index (it follows the X pivots), the product rebuilt from the first state then differs from the generator and `return 0` is never reached — "
+                 f"orthogonal states get a positive fidelity", func="inner_product", construct="inner_product: Z support over part of the columns")
+    else:
+        raise AnalysisError(f"inner_product: Z columns taken from `{short(it)}`; not classified")
+
+
 def run(ctx: Ctx) -> None:
+    rule_z_support_whole(ctx)
     rule_reduced_reference(ctx)
     from ..rules import tableau as _tbx
     _tbx.rule_xz_rowops(ctx, ["graphiq/backends/stabilizer/functions/linalg.py", "graphiq/backends/stabilizer/functions/stabilizer.py"])
@@ -412,6 +444,7 @@ _G_VECTOR = ("    x1, z1 = x_matrix[row_to_add], z_matrix[row_to_add]\n"
 
 
 KNOCKOUTS = [
+    Knockout("inner-product-z-support-from-own-index", METRIC, sub_once("                for j in range(n_qubits)\n                if z2_matrix[i, j] == 1 and x2_matrix[i, j] == 0", "                for j in range(i, n_qubits)\n                if z2_matrix[i, j] == 1 and x2_matrix[i, j] == 0"), "fid.z-support", "part of the columns"),
     Knockout("inner-product-reads-unreduced-first-state", METRIC, sub_once("    stabilizer_tableau1, circ = inverse_circuit(stabilizer_tableau1)\n", "    _, circ = inverse_circuit(stabilizer_tableau1.copy())\n"), "fid.reduced-reference", "unreduced"),
     Knockout("row-sum-vectorised-z-term-halved", "graphiq/backends/stabilizer/functions/linalg.py", sub_once(_G_LOOP, _G_VECTOR), "prim.row-sum", "vectorised phase term"),
     Knockout("stabilizer-tableau-eq-or", TABLEAU, sub_once("            return np.all(self.phase == other.phase) and np.array_equal(", "            return np.all(self.phase == other.phase) or np.array_equal("), "eq.decision", "StabilizerTableau.__eq__"),
